@@ -24,11 +24,14 @@ package cert
 
 // ---- tables (C01, C02, C05)
 //@ func tables
-//@   props C01 C02 C05 C06 C07
-//@   uses x509.smt2 keys.smt2 ext.smt2
+//@   props C01 C02 C05 C06 C07 C17
+//@   uses x509.smt2 keys.smt2 ext.smt2 ec.smt2
 //@   ensures @C01,C02 forall a in [0, 8) :: has(sigAlgOids, a) && sigAlgOids[a] != nil && oidv(sigAlgOids[a]) == specSigOid(a)
 //@   ensures @C05 forall a in [0, 14) :: has(keyTypes, a) && keyTypes[a] == (if a <= 3 then 0 else 1)
 //@   ensures @C02 snMax != nil && BigVal(snMax) == pow2(159)
+//@   ensures @C17,C05 curves != nil && (forall a in [4, 14) :: has(curves, a) && curves[a] != nil && curveId(curves[a]) == a)
+//@   ensures @C17,C05 oidv(oidP224) == specCurveOid(4) && oidv(oidP256) == specCurveOid(5) && oidv(oidP384) == specCurveOid(6) && oidv(oidP521) == specCurveOid(7) && oidv(oidBrainpoolP256r1) == specCurveOid(8) && oidv(oidBrainpoolP384r1) == specCurveOid(9) && oidv(oidBrainpoolP512r1) == specCurveOid(10) && oidv(oidBrainpoolP256t1) == specCurveOid(11) && oidv(oidBrainpoolP384t1) == specCurveOid(12) && oidv(oidBrainpoolP512t1) == specCurveOid(13)
+//@   ensures @C17,C05 curveNameOids != nil && (forall a in [4, 14) :: has(curveNameOids, curveName(a)) && curveNameOids[curveName(a)] != nil && oidv(curveNameOids[curveName(a)]) == specCurveOid(a))
 //@   ensures @C07 oidAiaOcsp != nil && len(oidAiaOcsp) == 9 && oidv(oidAiaOcsp) == #oidAdOcsp
 //@   ensures @C07 len(extKeyUsages) == 6 && (forall i in [0, 6) :: extKeyUsages[i] != nil && oidv(extKeyUsages[i]) == specEkuOid(i))
 //@   ensures @C07 ocspNoCheck.Critical == false && ocspNoCheckCritical.Critical == true && oidv(ocspNoCheck.Id) == specExtOid(12) && oidv(ocspNoCheckCritical.Id) == specExtOid(12) && len(ocspNoCheck.Value) == 2 && ocspNoCheck.Value[0] == 5 && ocspNoCheck.Value[1] == 0 && len(ocspNoCheckCritical.Value) == 2 && ocspNoCheckCritical.Value[0] == 5 && ocspNoCheckCritical.Value[1] == 0
@@ -142,6 +145,10 @@ package cert
 //@   abstracts err == nil ==> bytes(res) == pkcs8(key)
 
 // ---- extensions (C06: identifier and critical flag; C07: value)
+
+//@ filelet CURVES = curves != nil && (forall a in [4, 14) :: has(curves, a) && curves[a] != nil && curveId(curves[a]) == a)
+//@ filelet OIDCURVES = oidv(oidP224) == specCurveOid(4) && oidv(oidP256) == specCurveOid(5) && oidv(oidP384) == specCurveOid(6) && oidv(oidP521) == specCurveOid(7) && oidv(oidBrainpoolP256r1) == specCurveOid(8) && oidv(oidBrainpoolP384r1) == specCurveOid(9) && oidv(oidBrainpoolP512r1) == specCurveOid(10) && oidv(oidBrainpoolP256t1) == specCurveOid(11) && oidv(oidBrainpoolP384t1) == specCurveOid(12) && oidv(oidBrainpoolP512t1) == specCurveOid(13)
+//@ filelet NAMEOIDS = curveNameOids != nil && (forall a in [4, 14) :: has(curveNameOids, curveName(a)) && curveNameOids[curveName(a)] != nil && oidv(curveNameOids[curveName(a)]) == specCurveOid(a))
 
 // ---- extensions (C06: identifier and critical flag; C07: value)
 //@ filelet EXTOIDS = oidExtensionSubjectKeyId != nil && oidv(oidExtensionSubjectKeyId) == specExtOid(0) && oidExtensionKeyUsage != nil && oidv(oidExtensionKeyUsage) == specExtOid(1) && oidExtensionExtendedKeyUsage != nil && oidv(oidExtensionExtendedKeyUsage) == specExtOid(2) && oidExtensionAuthorityKeyId != nil && oidv(oidExtensionAuthorityKeyId) == specExtOid(3) && oidExtensionBasicConstraints != nil && oidv(oidExtensionBasicConstraints) == specExtOid(4) && oidExtensionSubjectAltName != nil && oidv(oidExtensionSubjectAltName) == specExtOid(5) && oidExtensionCertificatePolicies != nil && oidv(oidExtensionCertificatePolicies) == specExtOid(6) && oidExtensionAuthorityInfoAccess != nil && oidv(oidExtensionAuthorityInfoAccess) == specExtOid(9) && oidExtensionAdmission != nil && oidv(oidExtensionAdmission) == specExtOid(11) && oidExtensionOcspNoCheck != nil && oidv(oidExtensionOcspNoCheck) == specExtOid(12)
@@ -331,3 +338,28 @@ package cert
 //@ func ReadPem returns (res, err)
 //@   props C17 C14
 //@   unverified loop over pem.Decode with ParsePKCS8PrivateKey (C17) not yet under contract
+
+// ---- EC private keys and PKCS#8 (C17, C14)
+//@ func namedCurveFromOID returns (res, err)
+//@   props C17 C05
+//@   uses ec.smt2
+//@   given CURVES
+//@   given OIDCURVES
+//@   ensures @C17,C05 (err == nil) <==> (curveOfOid(oidv(oid)) >= 4)
+//@   ensures @C17,C05 err == nil ==> res != nil && curveId(res) == curveOfOid(oidv(oid))
+
+// parseECPrivateKey: version 1; the curve named by the outer OID if given, else by the inner one; the scalar D is the
+// big-endian value of the octets and below the group order; the public point is D*G for exactly that D (the scalar is
+// left-padded with zero bytes to the curve size, surplus leading zero bytes are dropped).
+//@ func parseECPrivateKey returns (key, err)
+//@   props C17 C14
+//@   uses ec.smt2
+//@   let EC = aftercall("encoding/asn1.Unmarshal", 1, deref(addr(privKey)))
+//@   let CID = (if namedCurveOID != nil then curveOfOid(oidv(old(deref(namedCurveOID)))) else curveOfOid(oidv(EC.NamedCurveOID)))
+//@   let D = be(aftercall("encoding/asn1.Unmarshal", 1, bytes(deref(addr(privKey)).PrivateKey)))
+//@   ensures err != nil ==> key == nil
+//@   ensures @C17,C14 err == nil ==> EC.Version == 1 && CID >= 4 && key != nil && fresh(key) && key.Curve != nil && curveId(key.Curve) == CID
+//@   ensures @C17,C14 err == nil ==> key.D != nil && BigVal(key.D) == D && D < curveOrder(CID)
+//@   ensures @C17,C14 err == nil ==> key.X != nil && key.Y != nil && BigVal(key.X) == sbmX(CID, D) && BigVal(key.Y) == sbmY(CID, D)
+//@   loop 1
+//@     invariant @C17,C14 be(bytes(privKey.PrivateKey)) == entry(be(bytes(privKey.PrivateKey))) && len(privateKey) == curveBytes(CID) && fresh(privateKey)
